@@ -4,6 +4,7 @@ import (
 	"context"
 	"errors"
 	"fmt"
+	"math/big"
 	"sort"
 	"strings"
 	"testing"
@@ -11,6 +12,8 @@ import (
 
 	"perun.network/go-perun/channel"
 	"perun.network/go-perun/client"
+	"perun.network/go-perun/wallet"
+	"perun.network/go-perun/wire"
 	"verif/engine/explore"
 	"verif/engine/report"
 	"verif/engine/schedrun"
@@ -27,6 +30,9 @@ type upd struct {
 
 // decisions on incoming requests: 'a' accept, 'r' reject, 'd' accept after a delay
 type c06prog struct {
+	// Early: the first update of a channel races with two overlapping channel openings at the
+	// responder (it is held in the responder's version-1 request cache until the opening is done)
+	Early   bool
 	Name    string
 	Chans   int
 	Threads [][]upd
@@ -99,6 +105,9 @@ func decider(dec *string) func(p *Party, cur *channel.State, u client.ChannelUpd
 func c06exec(t *testing.T, ssc schedrun.Scenario, o vsched.Options) (*vsched.Sched, any) {
 	pr := c06lookup(ssc.Name)
 	obs := &c06obs{}
+	if pr.Early {
+		return c06execEarly(t, pr, o)
+	}
 	s := vsched.Run(t, o, func() {
 		w := NewWorld(2, nil, false)
 		decA, decB := pr.DecA, pr.DecB
@@ -169,6 +178,126 @@ func c06exec(t *testing.T, ssc schedrun.Scenario, o vsched.Options) (*vsched.Sch
 			obs.hErrs = append(obs.hErrs, w.P[who].HandlerErrs...)
 		}
 		obs.sent = len(w.Bus.Sent)
+	})
+	return s, obs
+}
+
+// c06execEarly: A opens two channels to B concurrently while B's funding is held back, so both
+// openings overlap at B; A updates the first channel at once - B has not registered it yet and
+// keeps the request in its version-1 cache; B's user rejects it when it is finally handled
+// (DecB[0]); later requests are decided by the rest of DecB. Then the second opening completes.
+func c06execEarly(t *testing.T, pr c06prog, o vsched.Options) (*vsched.Sched, any) {
+	obs := &c06obs{}
+	s := vsched.Run(t, o, func() {
+		gate := &gatedFunder{open: map[channel.ID]bool{}}
+		funderOverride = func(i int) channel.Funder {
+			if i == 1 {
+				return gate
+			}
+			return nil
+		}
+		w := NewWorld(2, nil, false)
+		funderOverride = nil
+		decA, decB := pr.DecA, pr.DecB
+		w.P[0].OnUpdate, w.P[1].OnUpdate = decider(&decA), decider(&decB)
+		opened := make(chan *client.Channel, 2)
+		open := func(k int) {
+			vsched.GoNamed(fmt.Sprintf("open%d", k), func() {
+				alloc := channel.NewAllocation(2, []wallet.BackendID{0}, w.Asset)
+				alloc.SetAssetBalances(w.Asset, []channel.Bal{big.NewInt(10), big.NewInt(10)})
+				prop, err := client.NewLedgerChannelProposal(60, w.P[0].Addr, alloc, []map[wallet.BackendID]wire.Address{w.P[0].WireID, w.P[1].WireID}, w.P[0].nextNonce())
+				if err != nil {
+					panic(err)
+				}
+				ctx, cancel := context.WithTimeout(context.Background(), 60*time.Second)
+				defer cancel()
+				ch, err := w.P[0].C.ProposeChannel(ctx, prop)
+				if err != nil {
+					obs.openErr = err.Error()
+				}
+				vsched.Send(opened, ch)
+			})
+		}
+		open(0)
+		ch0 := vsched.Recv(opened)
+		open(1)
+		ch1 := vsched.Recv(opened)
+		if obs.openErr != "" || ch0 == nil || ch1 == nil {
+			return
+		}
+		// both openings are now pending at B (funding held back)
+		vsched.WaitCond("both-pending", func() bool { return len(gate.pending) == 2 })
+		obs.chIDs = []channel.ID{ch0.ID(), ch1.ID()}
+		obs.nOpen = len(w.Enabled)
+		vsched.StartExploration()
+		done := make(chan struct{}, 1)
+		vsched.GoNamed("updater0", func() {
+			ctx, cancel := context.WithTimeout(context.Background(), 5*time.Second)
+			rec := callRec{Who: 0, Ch: 0}
+			w.tick()
+			rec.Call = w.clock
+			err := ch0.Update(ctx, func(s *channel.State) {
+				pay(0, 1, false)(s)
+				nx := s.Clone()
+				nx.Version++
+				rec.Proposed, rec.Version = fxEnc(nx), nx.Version
+			})
+			cancel()
+			w.tick()
+			rec.Ret = w.clock
+			rec.Kind = classify(err)
+			obs.calls = append(obs.calls, rec)
+			vsched.Send(done, struct{}{})
+		})
+		vsched.Sleep(100 * time.Millisecond) // the request reaches B and is cached
+		gate.open[ch0.ID()] = true            // opening 0 completes at B: the cached request is handled
+		vsched.Recv(done)
+		vsched.Sleep(100 * time.Millisecond)
+		gate.open[ch1.ID()] = true // opening 1 completes at B
+		vsched.WaitCond("B-has-both", func() bool { return len(w.P[1].Chans) == 2 })
+		vsched.Sleep(30 * time.Second)
+		obs.enabled = append([]enabledEv{}, w.Enabled[obs.nOpen:]...)
+		// only the events of updates (version > 0) belong to the update protocol
+		k := 0
+		for _, e := range obs.enabled {
+			if e.Version > 0 {
+				obs.enabled[k] = e
+				k++
+			}
+		}
+		obs.enabled = obs.enabled[:k]
+		timedOut := false
+		for _, c := range obs.calls {
+			timedOut = timedOut || c.Kind == "timeout"
+		}
+		chansA := []*client.Channel{ch0, ch1}
+		chansB := make([]*client.Channel, 2)
+		for _, c := range w.P[1].Chans {
+			for i, id := range obs.chIDs {
+				if c.ID() == id {
+					chansB[i] = c
+				}
+			}
+		}
+		if !timedOut {
+			decA, decB = "", ""
+			for c := 0; c < 2; c++ {
+				for who, chs := range [][]*client.Channel{chansA, chansB} {
+					ctx, cancel := context.WithTimeout(context.Background(), 5*time.Second)
+					err := chs[c].Update(ctx, pay(who, 2, false))
+					cancel()
+					obs.probe = append(obs.probe, fmt.Sprintf("probe ch%d by %d: %s", c, who, classify(err)))
+				}
+			}
+			vsched.Sleep(time.Second)
+		}
+		for who, chs := range [][]*client.Channel{chansA, chansB} {
+			for c := 0; c < 2; c++ {
+				obs.final[who] = append(obs.final[who], fxEnc(chs[c].State()))
+				obs.phases[who] = append(obs.phases[who], chs[c].Phase().String())
+			}
+			obs.hErrs = append(obs.hErrs, w.P[who].HandlerErrs...)
+		}
 	})
 	return s, obs
 }
@@ -361,6 +490,18 @@ func c06programs(thorough bool) []c06prog {
 	// two channels between the same pair
 	add(2, [][]upd{{A}, {{0, 1, 3}}}, "", "aa")
 	add(2, [][]upd{{A}, {{1, 1, 2}}}, "a", "a")
+	// ... the same version number on both channels, one of the requests rejected: a response must
+	// never be taken for the other channel's request
+	add(2, [][]upd{{A, {0, 1, 3}}}, "", "ra")
+	add(2, [][]upd{{A, {0, 1, 3}}}, "", "ar")
+	add(2, [][]upd{{A}, {{0, 1, 3}}}, "", "ra")
+	add(2, [][]upd{{{1, 0, 2}, {1, 1, 2}}}, "ra", "")
+	// the first update of a channel while two openings overlap at the responder (version-1 cache)
+	for _, d := range []string{"ra", "aa", "rr"} {
+		p := c06prog{Early: true, Chans: 2, Threads: [][]upd{{A}}, DecB: d}
+		p.Name = fmt.Sprintf("early/%s", c06site(p))
+		out = append(out, p)
+	}
 	if thorough {
 		add(1, [][]upd{{A, B, A}}, "a", "aa")
 		add(1, [][]upd{{A, A}, {B}}, "a", "aa")
